@@ -553,15 +553,15 @@ class DB:
 
         def repl(mo):
             w = mo.group(0)
-            if re.fullmatch(r"0[xX][0-9a-fA-F]+|\d+", w):
-                return str(int(w, 0))
+            if re.fullmatch(r"(0[xX][0-9a-fA-F]+|\d+)[uUlL]*", w):
+                return str(int(w.rstrip("uUlL"), 0))
             if depth > 8:
                 raise AnalysisBroken("macro recursion " + name)
             try:
                 return str(self.macro_int(w, depth + 1))
             except AnalysisBroken:
                 return str(self.enum(w))
-        expr = re.sub(r"[A-Za-z_]\w*|0[xX][0-9a-fA-F]+|\d+", repl, body)
+        expr = re.sub(r"0[xX][0-9a-fA-F]+[uUlL]*|\d+[uUlL]*|[A-Za-z_]\w*", repl, body)
         if not re.fullmatch(r"[\d\s()+\-*/<>|&]+", expr):
             raise AnalysisBroken("macro %s body not constant: %s" % (name, body))
         return int(eval(expr, {"__builtins__": {}}, {}))
